@@ -5,8 +5,8 @@ from vt.core import Ob, OK, FAIL, UNDEC, ERR
 def all_contracts():
     from vt.e1 import tt_contracts
     reg = dict(tt_contracts.REG)
-    from vt.e1 import sle_contracts, ode_contracts, ode1_contracts, split_contracts, evp_contracts, dd_contracts
-    for m in (sle_contracts, ode_contracts, ode1_contracts, split_contracts, evp_contracts, dd_contracts):
+    from vt.e1 import sle_contracts, ode_contracts, ode1_contracts, split_contracts, evp_contracts, dd_contracts, arr_contracts
+    for m in (sle_contracts, ode_contracts, ode1_contracts, split_contracts, evp_contracts, dd_contracts, arr_contracts):
         dup = set(reg) & set(m.REG)
         if dup:
             raise RuntimeError('duplicate contract names: %s' % sorted(dup))
